@@ -390,6 +390,13 @@ func (c *core) fastForward(block *hg.Block, frame *hg.Frame) error {
 		return fmt.Errorf("Invalid Frame Hash")
 	}
 
+	// The signatures were counted against the peer-set shipped in the Frame
+	// itself, which proves nothing if the sender made that peer-set up. Require
+	// a valid signature from at least one validator we have a reason to trust.
+	if err := c.checkTrustedSigner(block); err != nil {
+		return err
+	}
+
 	err = c.hg.Reset(block, frame)
 	if err != nil {
 		return err
@@ -405,6 +412,28 @@ func (c *core) fastForward(block *hg.Block, frame *hg.Frame) error {
 	c.validators = peers.NewPeerSet(frame.Peers)
 
 	return nil
+}
+
+// checkTrustedSigner returns an error unless the Block carries a valid
+// signature from a peer that belongs to one of the peer-sets this node knows
+// about independently of the fast-forward response: its current peers (the
+// configured peers.json), the genesis peer-set, or its latest validator-set.
+func (c *core) checkTrustedSigner(block *hg.Block) error {
+	for _, s := range block.GetSignatures() {
+		validatorHex := s.ValidatorHex()
+
+		_, inPeers := c.peers.ByPubKey[validatorHex]
+		_, inGenesis := c.genesisPeers.ByPubKey[validatorHex]
+		_, inValidators := c.validators.ByPubKey[validatorHex]
+		if !inPeers && !inGenesis && !inValidators {
+			continue
+		}
+
+		if ok, _ := block.Verify(s); ok {
+			return nil
+		}
+	}
+	return fmt.Errorf("Block is not signed by any known validator")
 }
 
 // checkFastForwardInput rejects Blocks and Frames with missing elements (null
